@@ -266,6 +266,7 @@ def populate_universe():
         if "range" in vl or "plural" in vl:
             for cl, c in counts:
                 out.append(("%s / %s" % (vl, cl), v, L(T(S("var_count"), c), T(S("var_x"), X))))
+                out.append(("%s / only %s" % (vl, cl), v, L(T(S("var_count"), c))))        # the count as the only argument
     return out
 
 
@@ -436,7 +437,8 @@ def check_args(ctx, r, rid="R0"):
     funcs = absint.file_funcs(ctx.ast, PV, impl_self="ParsedValue")
     MAXV = C("MAX")
     lits = [("name", C("String", S("Bob"), MAXV)), ("zip", C("String", S("01234"), MAXV)), ("version", C("String", S("1.10"), MAXV)), ("plus", C("String", S("+33"), MAXV)),
-            ("exp", C("String", S("1e3"), MAXV)), ("neg", C("String", S("-7"), MAXV)), (" spaced ", C("String", S(" padded "), MAXV)), ("inner", C("String", S("dear {{ who }}"), MAXV)),
+            ("exp", C("String", S("1e3"), MAXV)), ("neg", C("String", S("-7"), MAXV)), (" spaced ", C("String", S(" padded "), MAXV)), ("inner", C("String", S("dear {{ who }}"), MAXV)), ("tagged", C("String", S("<b>World</b>"), MAXV)),
+            ("tagged_var", C("String", S("<i>{{ who }}</i>!"), MAXV)),
             ("n", C("Unsigned", I(3))), ("m", C("Signed", I(-2))), ("flag", C("Bool", B(True))), ("ratio", C("Float", A("float:2.5")))]
 
     def mk():
